@@ -30,9 +30,9 @@ def float_pt(rng, d, N, maxbond, rank3, transforms):
     return IntPT(d, mpos, caps, tin, tout)
 
 
-def impl_states(d, pts, props, rho0, N, ctrl=None, record_all=True):
+def impl_states(d, pts, props, rho0, N, ctrl=None, record_all=True, start_time=0.0):
     sysm = InjSystem(d, props)
-    dyn = quiet(oqupy.compute_dynamics, sysm, initial_state=np.array(rho0), dt=0.1, num_steps=N,
+    dyn = quiet(oqupy.compute_dynamics, sysm, initial_state=np.array(rho0), dt=0.1, num_steps=N, start_time=start_time,
                 process_tensor=[p.build() for p in pts], control=ctrl, record_all=record_all,
                 progress_type="silent")
     return [np.array(s).reshape(-1) for s in dyn.states]
@@ -55,28 +55,33 @@ def search(chk, n):
         envs = [dict(mpos=[mpo_transformed(m, p.tin, p.tout) for m in p.mpos], caps=p.caps) for p in pts]
         # control operations interleaved with the propagators: at most one per step and side (stacking is C18's subject)
         pre, post, ctrl = {}, {}, None
+        start_t = 0.0
         if rng.random() < 0.45:
             ctrl = oqupy.Control(d)
+            # all controls of a run are given either as integer steps or as float times (a non-zero start time then)
+            as_float = rng.random() < 0.5
+            start_t = rng.choice([0.0, 0.5, -1.3]) if as_float else 0.0
             for k in range(N + 1):
                 for side, table in ((False, pre), (True, post)):
                     if rng.random() < 0.4 and not (side and k == N):
                         table[k] = rand_complex(rng, (d2, d2), .6)
-                        ctrl.add_single(k, table[k].copy(), post=side)
+                        key = float(start_t + (k + rng.choice([0.0, 0.3, -0.3])) * 0.1) if as_float else k
+                        ctrl.add_single(key, table[k].copy(), post=side)
         want = ref_dynamics(d2, envs, pre, post, props, rho0.reshape(-1), N)
-        got = impl_states(d, pts, props, rho0, N, ctrl=ctrl)
+        got = impl_states(d, pts, props, rho0, N, ctrl=ctrl, start_time=start_t)
         chk.search_cases += 1
         scale = max(1e-300, max(np.abs(w).max() for w in want))
         err = max(np.abs(g - w).max() for g, w in zip(got, want)) / scale
         if len(got) != len(want) or err > 1e-9:
             chk.fail("joint-evolution", f"compute_dynamics deviates from the dense joint evolution (rel {err:.2e})"
                      + (f"; controls: pre at steps {sorted(pre)}, post at steps {sorted(post)}" if ctrl is not None else ""),
-                     {"d": d, "N": N, "nenv": nenv, "seed": chk.seed, "iteration": it, "pre_controls": sorted(pre), "post_controls": sorted(post)})
+                     {"d": d, "N": N, "nenv": nenv, "seed": chk.seed, "iteration": it, "pre_controls": sorted(pre), "post_controls": sorted(post), "start_time": start_t})
         # order independence
         if nenv >= 2:
             perm = list(range(nenv))
             rng.shuffle(perm)
             if perm != list(range(nenv)):
-                got2 = impl_states(d, [pts[i] for i in perm], props, rho0, N, ctrl=ctrl)
+                got2 = impl_states(d, [pts[i] for i in perm], props, rho0, N, ctrl=ctrl, start_time=start_t)
                 err2 = max(np.abs(g - w).max() for g, w in zip(got, got2)) / scale
                 chk.search_cases += 1
                 if err2 > 1e-9:
